@@ -3,6 +3,7 @@ CONSTANTS
   AllSiblings = FALSE
   EnterOnFocusIn = FALSE
   StaleTarget = TRUE
+  FastPath = FALSE
   Depth = 2
   Shapes = {"H"}
 SPECIFICATION Spec
